@@ -107,108 +107,9 @@ Proof.
   - intros a b Ha [<-|[]]. rewrite Forall_forall in Hf. apply Hf. now apply in_rev.
 Qed.
 
-Section SortGeneric.
-  Context {A : Type}.
-  Variable lt : A -> A -> bool.
-  Let step := fun (prefix_rev : list A) (x : A) => insert_tail lt x prefix_rev.
+(* k and x are equivalent for the strict order lt: neither is less than the other *)
+Definition equiv {A} (lt : A -> A -> bool) (k x : A) : bool := negb (lt k x) && negb (lt x k).
 
-  Lemma insert_tail_perm x p : Permutation (x :: p) (insert_tail lt x p).
-  Proof.
-    induction p as [|y p IH]; cbn; [reflexivity|].
-    destruct (lt x y); [|reflexivity].
-    rewrite perm_swap. now constructor.
-  Qed.
-
-  Lemma fold_insert_perm l acc : Permutation (l ++ acc) (fold_left step l acc).
-  Proof.
-    revert acc. induction l as [|x l IH]; intros acc; cbn; [reflexivity|].
-    rewrite <- IH. unfold step. rewrite <- insert_tail_perm. apply Permutation_middle.
-  Qed.
-
-  Lemma insertion_sort_perm l : Permutation l (insertion_sort lt l).
-  Proof.
-    unfold insertion_sort. rewrite <- Permutation_rev. fold step.
-    rewrite <- fold_insert_perm. now rewrite app_nil_r.
-  Qed.
-
-  Lemma insertion_sort_length l : length (insertion_sort lt l) = length l.
-  Proof. symmetry. apply Permutation_length, insertion_sort_perm. Qed.
-
-  (* the comparator is a strict weak order on the elements that satisfy P *)
-  Variable P : A -> Prop.
-  Hypothesis asym : forall x y, P x -> P y -> lt x y = true -> lt y x = false.
-  Hypothesis negtrans : forall x y z, P x -> P y -> P z ->
-    lt x y = false -> lt y z = false -> lt x z = false.
-
-  Lemma insert_tail_P x p : P x -> Forall P p -> Forall P (insert_tail lt x p).
-  Proof.
-    intros Hx Hp. eapply Permutation_Forall; [apply insert_tail_perm|]. now constructor.
-  Qed.
-
-  Definition desc (p : list A) := StronglySorted (fun y z => lt y z = false) p.
-
-  Lemma insert_tail_desc x p : P x -> Forall P p -> desc p -> desc (insert_tail lt x p).
-  Proof.
-    intros Hx. induction p as [|y p IH]; intros Hp Hd; cbn.
-    - repeat constructor.
-    - inversion Hp as [|? ? Py Pp]; subst. inversion Hd as [|? ? Hs Hf]; subst.
-      destruct (lt x y) eqn:E.
-      + constructor; [now apply IH|].
-        eapply Permutation_Forall; [apply insert_tail_perm|]. constructor; [now apply asym|assumption].
-      + constructor; [assumption|]. constructor; [assumption|].
-        rewrite Forall_forall in *. intros z Hz. apply (negtrans x y z); auto.
-  Qed.
-
-  Lemma fold_insert_desc l acc :
-    Forall P l -> Forall P acc -> desc acc -> desc (fold_left step l acc) /\ Forall P (fold_left step l acc).
-  Proof.
-    revert acc. induction l as [|x l IH]; intros acc Hl Ha Hd; cbn; [split; assumption|].
-    inversion Hl; subst. apply IH; auto; unfold step.
-    - now apply insert_tail_P.
-    - now apply insert_tail_desc.
-  Qed.
-
-  (* the result is non-decreasing: no later element is less than an earlier one *)
-  Lemma insertion_sort_sorted l :
-    Forall P l -> StronglySorted (fun a b => lt b a = false) (insertion_sort lt l).
-  Proof.
-    intros Hl. unfold insertion_sort. apply (SS_rev (fun y z => lt y z = false)).
-    apply (fold_insert_desc l []); auto. constructor.
-  Qed.
-
-  (* stability: for every k, the elements equivalent to k keep their input order *)
-  Definition equiv (k x : A) : bool := negb (lt k x) && negb (lt x k).
-
-  Lemma insert_tail_stable k x p :
-    P k -> P x -> Forall P p ->
-    filter (equiv k) (rev (insert_tail lt x p)) = filter (equiv k) (rev p ++ [x]).
-  Proof.
-    intros Hk Hx. induction p as [|y p IH]; intros Hp; cbn; [reflexivity|].
-    inversion Hp as [|? ? Py Pp]; subst.
-    destruct (lt x y) eqn:E; [|reflexivity].
-    cbn. rewrite !filter_app, IH by assumption. rewrite filter_app, <- !app_assoc. f_equal.
-    cbn. destruct (equiv k x) eqn:Ex, (equiv k y) eqn:Ey; try reflexivity.
-    exfalso. unfold equiv in *.
-    apply andb_prop in Ex as [_ Ex2]. apply andb_prop in Ey as [Ey1 _].
-    apply negb_true_iff in Ex2, Ey1. rewrite (negtrans x k y) in E; auto. discriminate.
-  Qed.
-
-  Lemma fold_insert_stable k l acc :
-    P k -> Forall P l -> Forall P acc ->
-    filter (equiv k) (rev (fold_left step l acc)) = filter (equiv k) (rev acc ++ l).
-  Proof.
-    intros Hk. revert acc. induction l as [|x l IH]; intros acc Hl Ha; cbn.
-    - now rewrite app_nil_r.
-    - inversion Hl; subst. rewrite IH; auto; [|now apply insert_tail_P].
-      unfold step. change (x :: l) with ([x] ++ l).
-      rewrite !filter_app, insert_tail_stable by assumption.
-      rewrite filter_app, <- app_assoc. reflexivity.
-  Qed.
-
-  Lemma insertion_sort_stable k l :
-    P k -> Forall P l -> filter (equiv k) (insertion_sort lt l) = filter (equiv k) l.
-  Proof. intros Hk Hl. unfold insertion_sort. fold step. now rewrite fold_insert_stable. Qed.
-End SortGeneric.
 
 (* a sorted list is determined by its equivalence-class subsequences: every stable sort of the
    same input under the same strict weak order returns the same list (this is what lets the
@@ -337,284 +238,6 @@ Proof.
   induction l as [|x l IH]; cbn; intros H; [reflexivity|].
   rewrite (H x) by now left. rewrite IH; [reflexivity|]. intros; apply H; now right.
 Qed.
-
-Lemma sort_ok l : sort_determined l = true ->
-  bi_sort [VList l] = Ok (VList (insertion_sort value_less l)).
-Proof. intros H. cbn. now rewrite H. Qed.
-
-Lemma sort_unspecified l : sort_determined l = false -> bi_sort [VList l] = Unmodelled.
-Proof. intros H. cbn. now rewrite H. Qed.
-
-Lemma sort_perm l r : bi_sort [VList l] = Ok r -> exists l', r = VList l' /\ Permutation l l'.
-Proof.
-  cbn. destruct (sort_determined l); [|discriminate]. intros H; injection H as <-.
-  eexists; split; [reflexivity|]. apply insertion_sort_perm.
-Qed.
-
-Lemma sort_sorted l : mutually_comparable l = true ->
-  exists l', bi_sort [VList l] = Ok (VList l') /\
-             StronglySorted (fun a b => ulte a b = true) l'.
-Proof.
-  intros Hmc. exists (insertion_sort value_less l). split.
-  - apply sort_ok. unfold sort_determined. rewrite Hmc. apply orb_true_r.
-  - assert (HP : Forall (fun x => In x l) l) by (apply Forall_forall; auto).
-    assert (S := insertion_sort_sorted value_less (fun x => In x l)
-                   (vl_asym l) (vl_negtrans l Hmc) l HP).
-    assert (Pm := insertion_sort_perm value_less l).
-    (* transport membership to the sorted list *)
-    assert (Hin : forall x, In x (insertion_sort value_less l) -> In x l).
-    { intros x Hx. eapply Permutation_in; [symmetry; exact Pm|exact Hx]. }
-    revert S Hin. generalize (insertion_sort value_less l) as s.
-    induction s as [|a s IH]; intros S Hin; [constructor|].
-    inversion S as [|? ? S' F]; subst. constructor.
-    + apply IH; auto. intros; apply Hin; now right.
-    + rewrite Forall_forall in *. intros b Hb.
-      apply (vl_not_less_ulte l Hmc); [apply Hin; now left|apply Hin; now right|now apply F].
-Qed.
-
-Lemma sort_stable l : mutually_comparable l = true ->
-  exists l', bi_sort [VList l] = Ok (VList l') /\
-             forall k, In k l -> filter (same_class k) l' = filter (same_class k) l.
-Proof.
-  intros Hmc. exists (insertion_sort value_less l). split.
-  - apply sort_ok. unfold sort_determined. rewrite Hmc. apply orb_true_r.
-  - intros k Hk.
-    assert (HP : Forall (fun x => In x l) l) by (apply Forall_forall; auto).
-    assert (St := insertion_sort_stable value_less (fun x => In x l)
-                    (vl_negtrans l Hmc) k l Hk HP).
-    assert (Pm := insertion_sort_perm value_less l).
-    rewrite (filter_ext_in' (same_class k) (equiv value_less k) (insertion_sort value_less l)).
-    + rewrite St. apply filter_ext_in'. intros x Hx. unfold same_class.
-      now apply (vl_equiv_ceq l Hmc).
-    + intros x Hx. unfold same_class. symmetry. apply (vl_equiv_ceq l Hmc); [assumption|].
-      eapply Permutation_in; [symmetry; exact Pm|exact Hx].
-Qed.
-
-(* every list that is a sorted, stable rearrangement of l is the model's answer: the model stands
-   for any stable sorting algorithm on mutually comparable input *)
-Lemma sort_any_stable_sort l l' :
-  mutually_comparable l = true -> Permutation l l' ->
-  StronglySorted (fun a b => value_less b a = false) l' ->
-  (forall k, In k l -> filter (equiv value_less k) l' = filter (equiv value_less k) l) ->
-  bi_sort [VList l] = Ok (VList l').
-Proof.
-  intros Hmc Pm S Stb. rewrite sort_ok by (unfold sort_determined; rewrite Hmc; apply orb_true_r).
-  do 2 f_equal. symmetry.
-  assert (HP : Forall (fun x => In x l) l) by (apply Forall_forall; auto).
-  apply (sorted_stable_unique value_less (fun x => In x l) (vl_irrefl l)).
-  - apply Forall_forall. intros x Hx. eapply Permutation_in; [symmetry; exact Pm|exact Hx].
-  - eapply Permutation_Forall; [apply insertion_sort_perm|exact HP].
-  - exact S.
-  - apply (insertion_sort_sorted value_less (fun x => In x l) (vl_asym l) (vl_negtrans l Hmc)). exact HP.
-  - intros k Hk. rewrite (Stb k Hk). symmetry.
-    apply (insertion_sort_stable value_less (fun x => In x l) (vl_negtrans l Hmc)); assumption.
-Qed.
-
-(* ====================================================================== sort_by *)
-Lemma insertion_sort_map {A B} (lt : B -> B -> bool) (h : A -> B) (l : list A) :
-  insertion_sort lt (map h l) = map h (insertion_sort (fun a b => lt (h a) (h b)) l).
-Proof.
-  unfold insertion_sort. rewrite map_rev. f_equal.
-  assert (G : forall acc,
-    fold_left (fun p x => insert_tail lt x p) (map h l) (map h acc) =
-    map h (fold_left (fun p x => insert_tail (fun a b => lt (h a) (h b)) x p) l acc)).
-  { induction l as [|x l IH]; intros acc; cbn; [reflexivity|].
-    rewrite <- IH. f_equal.
-    clear. induction acc as [|y acc IHa]; cbn; [reflexivity|].
-    destruct (lt (h x) (h y)); cbn; [now rewrite IHa|reflexivity]. }
-  exact (G []).
-Qed.
-
-Section SortBy.
-  Variable St : Type.
-  Variable call : value -> value -> list value -> St -> outcome value * St.
-  Notation sort_by_list := (sort_by_list St call).
-  Notation insert_tail_by := (insert_tail_by St call).
-  Notation insertion_sort_by := (insertion_sort_by St call).
-  Notation keys_of := (keys_of St call).
-  Notation sort_by_cmp := (sort_by_cmp St call).
-
-  (* ---- permutation, for every callback whatsoever ---- *)
-  Lemma insert_tail_by_perm func x p st r st' :
-    insert_tail_by func x p st = (Ok r, st') -> Permutation (x :: p) r.
-  Proof.
-    revert st r st'. induction p as [|y p IH]; intros st r st'; cbn.
-    - intros H; injection H as <- _. reflexivity.
-    - destruct (sort_by_cmp func x y st) as [c st1]. destruct c as [[]| | | |]; try discriminate.
-      + intros H; injection H as <- _. reflexivity.
-      + destruct (BuiltinsList.insert_tail_by St call func x p st1) as [res st2] eqn:E.
-        destruct res; cbn; try discriminate. intros H; injection H as <- _.
-        rewrite perm_swap. constructor. now apply (IH st1 _ st2).
-      + intros H; injection H as <- _. reflexivity.
-  Qed.
-
-  Lemma insertion_sort_by_perm func l acc st r st' :
-    insertion_sort_by func l acc st = (Ok r, st') -> Permutation (rev acc ++ l) r.
-  Proof.
-    revert acc st. induction l as [|x l IH]; intros acc st; cbn.
-    - intros H; injection H as <- _. now rewrite app_nil_r.
-    - destruct (BuiltinsList.insert_tail_by St call func x acc st) as [res st1] eqn:E.
-      destruct res as [p'| | | |]; try discriminate.
-      intros H. apply IH in H. rewrite <- H.
-      apply insert_tail_by_perm in E.
-      etransitivity; [|apply Permutation_app_tail; etransitivity; [exact E|apply Permutation_rev]].
-      symmetry. cbn. etransitivity; [apply Permutation_middle|].
-      apply Permutation_app_tail, Permutation_rev.
-  Qed.
-
-  Lemma keys_of_snd func l st kl st' : keys_of func l st = (Ok kl, st') -> map snd kl = l.
-  Proof.
-    revert st kl st'. induction l as [|x l IH]; intros st kl st'; cbn.
-    - intros H; injection H as <- _. reflexivity.
-    - destruct (call func func [x] st) as [k st1]. destruct k; try discriminate.
-      destruct (BuiltinsList.keys_of St call func l st1) as [more st2] eqn:E.
-      destruct more; cbn; try discriminate. intros H; injection H as <- _.
-      cbn. f_equal. now apply (IH st1 _ st2).
-  Qed.
-
-  Lemma sort_by_list_perm func l st r st' :
-    sort_by_list func l st = (Ok r, st') -> Permutation l r.
-  Proof.
-    unfold BuiltinsList.sort_by_list. destruct (length l <=? 20)%nat.
-    - intros H. apply insertion_sort_by_perm in H. exact H.
-    - destruct (is_function func); cbn.
-      + destruct (BuiltinsList.keys_of St call func l st) as [keyed st1] eqn:E.
-        destruct keyed as [kl| | | |]; try discriminate.
-        destruct (mutually_comparable (map fst kl)); [|discriminate].
-        intros H; injection H as <- _.
-        apply keys_of_snd in E. rewrite <- E at 1. apply Permutation_map, insertion_sort_perm.
-      + intros H; injection H as <- _. reflexivity.
-  Qed.
-
-  Lemma sort_by_perm func l st r st' :
-    bi_sort_by St call [VList l; func] st = (Ok r, st') -> exists l', r = VList l' /\ Permutation l l'.
-  Proof.
-    unfold bi_sort_by. cbn.
-    destruct (BuiltinsList.sort_by_list St call func l st) as [res st1] eqn:E.
-    destruct res; cbn; try discriminate. intros H; injection H as <- _.
-    eexists; split; [reflexivity|]. now apply sort_by_list_perm in E.
-  Qed.
-
-  (* ---- order and stability on the keys, for a callback that is a function of its argument ---- *)
-  Variable func : value.
-  Variable key : value -> value.
-  Hypothesis Hfun : is_function func = true.
-  Hypothesis Hkey : forall x st, fst (call func func [x] st) = Ok (key x).
-  Let key_less := fun a b => value_less (key a) (key b).
-
-  Lemma sort_by_cmp_key a b st : fst (sort_by_cmp func a b st) = Ok (cmp_or_eq (key a) (key b)).
-  Proof.
-    unfold BuiltinsList.sort_by_cmp. rewrite Hfun.
-    assert (Ha := Hkey a st). destruct (call func func [a] st) as [ra st1]. cbn in Ha. subst ra.
-    assert (Hb := Hkey b st1). destruct (call func func [b] st1) as [rb st2]. cbn in Hb. subst rb.
-    reflexivity.
-  Qed.
-
-  Lemma insert_tail_by_key x p st :
-    fst (insert_tail_by func x p st) = Ok (insert_tail key_less x p).
-  Proof.
-    revert st. induction p as [|y p IH]; intros st; cbn; [reflexivity|].
-    assert (Hc := sort_by_cmp_key x y st).
-    destruct (sort_by_cmp func x y st) as [c st1]. cbn in Hc. subst c.
-    unfold key_less at 1, value_less. destruct (cmp_or_eq (key x) (key y)); cbn; try reflexivity.
-    assert (H := IH st1). destruct (BuiltinsList.insert_tail_by St call func x p st1) as [res st2].
-    cbn in H. subst res. reflexivity.
-  Qed.
-
-  Lemma insertion_sort_by_key l acc st :
-    fst (insertion_sort_by func l acc st) =
-    Ok (rev (fold_left (fun p x => insert_tail key_less x p) l acc)).
-  Proof.
-    revert acc st. induction l as [|x l IH]; intros acc st; cbn; [reflexivity|].
-    assert (H := insert_tail_by_key x acc st).
-    destruct (BuiltinsList.insert_tail_by St call func x acc st) as [res st1]. cbn in H. subst res.
-    apply IH.
-  Qed.
-
-  Lemma keys_of_key l st : fst (keys_of func l st) = Ok (map (fun x => (key x, x)) l).
-  Proof.
-    revert st. induction l as [|x l IH]; intros st; cbn; [reflexivity|].
-    assert (H := Hkey x st). destruct (call func func [x] st) as [k st1]. cbn in H. subst k.
-    assert (H := IH st1). destruct (BuiltinsList.keys_of St call func l st1) as [more st2].
-    cbn in H. subst more. reflexivity.
-  Qed.
-
-  (* with mutually comparable keys the result is the stable sort by key *)
-  Lemma sort_by_list_key l st :
-    mutually_comparable (map key l) = true ->
-    fst (sort_by_list func l st) = Ok (insertion_sort key_less l).
-  Proof.
-    intros Hmc. unfold BuiltinsList.sort_by_list. destruct (length l <=? 20)%nat.
-    - apply insertion_sort_by_key.
-    - rewrite Hfun. cbn.
-      assert (H := keys_of_key l st). destruct (BuiltinsList.keys_of St call func l st) as [keyed st1].
-      cbn in H. subst keyed.
-      rewrite map_map. change (map (fun x => fst (key x, x)) l) with (map key l). rewrite Hmc. cbn.
-      f_equal.
-      rewrite (insertion_sort_map (fun a b => value_less (fst a) (fst b)) (fun x => (key x, x)) l).
-      rewrite map_map. cbn. now rewrite map_id.
-  Qed.
-
-  Lemma sort_by_key l st :
-    mutually_comparable (map key l) = true ->
-    fst (bi_sort_by St call [VList l; func] st) = Ok (VList (insertion_sort key_less l)).
-  Proof.
-    intros Hmc. unfold bi_sort_by. cbn.
-    assert (H := sort_by_list_key l st Hmc).
-    destruct (BuiltinsList.sort_by_list St call func l st) as [res st1]. cbn in H. subst res. reflexivity.
-  Qed.
-
-  (* strict weak order of key_less on the elements of l *)
-  Section KeyOrder.
-    Variable l : list value.
-    Hypothesis Hmc : mutually_comparable (map key l) = true.
-    Let P := fun x => In x l.
-    Lemma kl_asym x y : P x -> P y -> key_less x y = true -> key_less y x = false.
-    Proof. intros Hx Hy. apply (vl_asym (map key l)); now apply in_map. Qed.
-    Lemma kl_negtrans x y z : P x -> P y -> P z ->
-      key_less x y = false -> key_less y z = false -> key_less x z = false.
-    Proof. intros Hx Hy Hz. apply (vl_negtrans (map key l) Hmc); now apply in_map. Qed.
-  End KeyOrder.
-
-  Lemma sort_by_sorted l st :
-    mutually_comparable (map key l) = true ->
-    exists l', fst (bi_sort_by St call [VList l; func] st) = Ok (VList l') /\
-               StronglySorted (fun a b => ulte (key a) (key b) = true) l'.
-  Proof.
-    intros Hmc. exists (insertion_sort key_less l). split; [now apply sort_by_key|].
-    assert (HP : Forall (fun x => In x l) l) by (apply Forall_forall; auto).
-    assert (S := insertion_sort_sorted key_less (fun x => In x l) (kl_asym l) (kl_negtrans l Hmc) l HP).
-    assert (Pm := insertion_sort_perm key_less l).
-    assert (Hin : forall x, In x (insertion_sort key_less l) -> In x l).
-    { intros x Hx. eapply Permutation_in; [symmetry; exact Pm|exact Hx]. }
-    revert S Hin. generalize (insertion_sort key_less l) as s.
-    induction s as [|a s IH]; intros S Hin; [constructor|].
-    inversion S as [|? ? S' F]; subst. constructor.
-    + apply IH; auto. intros; apply Hin; now right.
-    + rewrite Forall_forall in *. intros b Hb.
-      apply (vl_not_less_ulte (map key l) Hmc); [apply in_map, Hin; now left|apply in_map, Hin; now right|].
-      now apply F.
-  Qed.
-
-  Lemma sort_by_stable l st :
-    mutually_comparable (map key l) = true ->
-    exists l', fst (bi_sort_by St call [VList l; func] st) = Ok (VList l') /\
-               forall k, In k l ->
-                 filter (fun x => same_class (key k) (key x)) l' = filter (fun x => same_class (key k) (key x)) l.
-  Proof.
-    intros Hmc. exists (insertion_sort key_less l). split; [now apply sort_by_key|].
-    intros k Hk.
-    assert (HP : Forall (fun x => In x l) l) by (apply Forall_forall; auto).
-    assert (Stb := insertion_sort_stable key_less (fun x => In x l) (kl_negtrans l Hmc) k l Hk HP).
-    assert (Pm := insertion_sort_perm key_less l).
-    assert (E : forall x, In x l -> same_class (key k) (key x) = equiv key_less k x).
-    { intros x Hx. unfold same_class. symmetry.
-      apply (vl_equiv_ceq (map key l) Hmc); now apply in_map. }
-    rewrite (filter_ext_in' _ (equiv key_less k) (insertion_sort key_less l)).
-    - rewrite Stb. symmetry. now apply filter_ext_in'.
-    - intros x Hx. apply E. eapply Permutation_in; [symmetry; exact Pm|exact Hx].
-  Qed.
-End SortBy.
 
 (* ====================================================================== chunk / flatten *)
 (* chunk's size argument after the `as usize` cast, as the model clamps it *)
